@@ -286,6 +286,19 @@ def relabel : List Gate → List Bool → List String
 def labelCnots (fixed : Bool) (gs : List Gate) : List String := relabel gs (cnotFlags fixed gs)
 
 
+/-- `itertools.product(pairs, repeat=k)` in its order -/
+def allSeqs (pairs : List Edge) : ℕ → List (List Edge)
+  | 0 => [[]]
+  | k + 1 => pairs.flatMap fun e => (allSeqs pairs k).map (e :: ·)
+
+/-- all ordered pairs of distinct qubits below `nq`, in `[(a, b) for a … for b … if a != b]` order -/
+def orderedPairs (nq : ℕ) : List Edge :=
+  (List.range nq).flatMap fun a => ((List.range nq).filter (· != a)).map fun b => (a, b)
+
+/-- flags of a pure CNOT sequence as a `0/1` string -/
+def flagString (fixed : Bool) (seq : List Edge) : String :=
+  String.ofList ((cnotFlags fixed (seq.map fun e => ⟨"cx", [e.1, e.2]⟩)).map fun b => if b then '1' else '0')
+
 /-! ### dispatch of `_generate_converted_processor` / `_create_2_qubit_gates_from_catalog` -/
 
 /-- what a labelled two-qubit gate name becomes (`use_postselection = ups`) -/
